@@ -227,3 +227,64 @@ func TestBoundedStypeAssign(t *testing.T) {
 	}
 	t.Logf("BOUNDED function=stype,typeof,newIterator,object,Assign,AssignOne cases=%d bound=%q detail=%q", cases, "two struct types; result lists of 0..3 objects", fmt.Sprint())
 }
+
+type bniObj struct {
+	Item
+	Plain  int
+	Idx    int    `sod:"index"`
+	Uniq   string `sod:"unique"`
+	Both   int64  `sod:"index,unique"`
+	Nested struct {
+		In uint8 `sod:"index"`
+	}
+}
+
+// newIndex / makeTmpIndex (assumed contracts: "one field index per descriptor that is indexed or unique,
+// with the constraints of the descriptor, empty"), also for descriptors set by hand on a custom schema.
+func TestBoundedNewIndex(t *testing.T) {
+	cases := 0
+	check := func(name string, fields FieldDescMap) {
+		idx := newIndex(fields)
+		for p, fd := range fields {
+			fi, has := idx.Fields[p]
+			want := fd.Constraints.Index || fd.Constraints.Unique
+			if has != want {
+				t.Errorf("%s: field %q (constraints %+v): field index present=%v, want %v", name, p, fd.Constraints, has, want)
+			}
+			if has {
+				if fi.Constraints.Unique != fd.Constraints.Unique || fi.Name != p || len(fi.Index) != 0 || fi.objectIds == nil {
+					t.Errorf("%s: field index of %q does not carry the descriptor: %+v", name, p, fi)
+				}
+			}
+			cases++
+		}
+		if len(idx.uuids) != 0 || len(idx.ObjectIds) != 0 || idx.uuids == nil || idx.ObjectIds == nil {
+			t.Errorf("%s: new index not empty", name)
+		}
+	}
+	check("tags", FieldDescriptors(&bniObj{}))
+	// every combination of the two flags set by hand on every field (custom schema)
+	for mask := 0; mask < 4; mask++ {
+		fields := FieldDescriptors(&bniObj{})
+		for p := range fields {
+			if err := fields.Constraint(p, Constraints{Index: mask&1 != 0, Unique: mask&2 != 0}); err != nil {
+				t.Fatal(err)
+			}
+		}
+		check(fmt.Sprintf("custom mask %d", mask), fields)
+	}
+	// the schema built from them enforces what the descriptors say (temporary index of batches included)
+	s := NewCustomSchema(func() FieldDescMap {
+		f := FieldDescriptors(&bniObj{})
+		f.Constraint("Plain", Constraints{Unique: true})
+		return f
+	}(), ".json")
+	if _, ok := s.ObjectIndex.Fields["Plain"]; !ok {
+		t.Errorf("NewCustomSchema: a field declared unique (only) has no index")
+	}
+	if tmp := s.makeTmpIndex(); len(tmp.Fields) != len(s.ObjectIndex.Fields) {
+		t.Errorf("makeTmpIndex: %d field indexes, schema has %d", len(tmp.Fields), len(s.ObjectIndex.Fields))
+	}
+	cases += 2
+	t.Logf("BOUNDED function=newIndex,makeTmpIndex,NewCustomSchema cases=%d bound=%q detail=%q", cases, "one struct type; descriptors from tags and every combination of {index, unique} set by hand on every field", "")
+}
